@@ -1,0 +1,10 @@
+//go:build verif
+
+// Contracts checked by /verif/gvc (contract-based deductive verification).
+// This file contains comments only; it is compiled only under the "verif" build tag.
+
+package codes
+
+//@ func NewError
+//@ props C13
+//@ ensures result != nil && isfresh(result) && result.Code == code
